@@ -215,6 +215,18 @@ def run_history(spec, acc):
                 acc.violation('function-uses-globals-of-defining-run', f'request {k}: got {res!r}, expected {want!r}; base globals rate={base_g.get("rate")!r} counter={base_g.get("counter")!r}; '
                               f'request globals counter={req_g.get("counter")!r}', {'history': 'preloaded-library', 'request': k})
                 return
+        # the SAME globals object across runs: a script function that replaced a library function in an earlier run is a name the
+        # caller supplies to the next run - the library merge leaves it alone (as it leaves host values and other script functions)
+        g = {}
+        bare_script.execute_script(bare_script.parse_script("function arrayLength(a):\n    return 'script arrayLength'\nendfunction\nfunction helper(x):\n    return 'helper ' + x\nendfunction\nmathAbs = 'not a function'"), {'globals': g})
+        kept = {k: g[k] for k in ('arrayLength', 'helper', 'mathAbs')}
+        for k in range(2):
+            res = bare_script.execute_script(bare_script.parse_script("return arrayNew(arrayLength(arrayNew(1, 2)), helper(1), mathAbs, stringLength('abc'))"), {'globals': g})
+            acc.case(('same-globals-next-run', h, k), True)
+            acc.count('same_globals_next_run_checks')
+            if res != ['script arrayLength', 'helper 1', 'not a function', 3] or any(g[n] is not v for n, v in kept.items()):
+                acc.violation('library-overwrote-supplied-name', f'second run on the same globals: {res!r}; bindings kept: { {n: g[n] is v for n, v in kept.items()} }', {'history': 'same-globals-next-run'})
+                return
         # one options object reused after a run that FAILED inside a data function called with a variables object (runtime error in
         # the row expression, budget exceeded in a callback): the caller's globals object is still the one in the options, the
         # variables are gone, and the next run writes its assignments there
